@@ -21,21 +21,30 @@ let parse_call (tok : string) : call =
   | ["F"; "fin"; o] -> CFeed (InFin (nat_of_int (int_of_string o)))
   | ["F"; "alert"] -> CFeed InAlert | ["F"; "eof"] -> CFeed InEof | ["F"; "err"] -> CFeed InErr
   | ["F"; "cut"; _] -> CFeed InEof     (* EOF inside a frame: the same termination cause as a clean EOF *)
+  | ["S"; d] -> CSend (bytes_of_hex d)
+  | ["P"] -> CPump
   | _ -> failwith ("bad call " ^ tok)
 
 let res_str = function
   | ResOk -> "ok" | ResClosed -> "closed" | ResIo -> "io" | ResErrOpen -> "erropen" | ResTimeout -> "timeout"
   | ResData -> "data" | ResEof -> "eof" | ResNoStream -> "nostream"
 
+let is_pump (s : state) (t : int) =
+  match s.pump_owner with Some p -> int_of_nat p = t | None -> false
+
+(* the forwarding task: process_stream_data is ONE long call in the implementation; in the model every loop
+   iteration is a CPump call. Its PIdle is the scheduling point at the top of the loop; once it has returned
+   (pump_done) the task is gone, whatever CPump calls are left in its program *)
 let pc_str (s : state) (t : int) (x : task) =
   match x.t_pc with
+  | PIdle when is_pump s t -> if s.pump_done then "done" else "pump.loop"
   | PIdle ->
     if t = 0 then (if s.ralive then "recv" else "done")
     else (match x.t_prog with [] -> "done" | _ -> "h.call")
   | PW0 _ -> "wf.enter" | PW1 _ -> "wf.buffering" | PW2 _ -> "wf.before_writer"
   | PW2wait _ | PC2wait _ -> "queued"
   | PW3 _ -> "wf.writer_locked" | PW4 _ -> "wf.buffer_taken" | PE0 _ -> "io_err.enter"
-  | PC1 _ -> "close.flag_set" | PC2 _ -> "close.before_writer" | PO0 -> "open.checked" | PO1 _ -> "open.registered"
+  | PC1 _ -> "close.flag_set" | PC2 _ -> "close.before_writer" | PO0 -> "open.checked" | PO1 _ -> "open.registered" | PPwait -> "pump.wait"
 
 let frame_tok (f : frame) =
   let c = int_of_n (byte_of_cmd f.fcmd) in
@@ -71,7 +80,8 @@ let drv_conc args =
   let b = Buffer.create 256 in
   let s = List.fold_left (fun s tok ->
       let t = int_of_string tok in
-      match step s (nat_of_int t) with
+      let gone = is_pump s t && s.pump_done && (match (s.tasks (nat_of_int t)).t_pc with PIdle -> true | _ -> false) in
+      match (if gone then None else step s (nat_of_int t)) with
       | Some s' -> free_recv s'
       | None -> Buffer.add_string b (Printf.sprintf "skip%d " t); s) s0 sched in
   Buffer.add_string b "W ";
@@ -83,7 +93,8 @@ let drv_conc args =
   for t = 0 to ntasks - 1 do
     let x = s.tasks (nat_of_int t) in
     Buffer.add_string b (Printf.sprintf " t%d:%s:%s" t (if t = 0 && mode = "start" then "-" else pc_str s t x)
-                           (match x.t_res with [] -> "-" | l -> String.concat "," (List.map res_str l)))
+                           (if is_pump s t then "-" else
+                              match x.t_res with [] -> "-" | l -> String.concat "," (List.map res_str l)))
   done;
   Buffer.contents b
 
